@@ -33,6 +33,7 @@ class ParserState:
     __slots__ = (
         "_pos_history",
         "_suppress_failures",
+        "_tag_history",
         "atomic_depth",
         "furthest_expected",
         "furthest_pos",
@@ -65,6 +66,7 @@ class ParserState:
         self.furthest_stack: list[Rule | RuleFrame] = []
 
         self._pos_history: list[int] = []
+        self._tag_history: list[tuple[str, ...]] = []
         self._suppress_failures = False
         self.atomic_depth = SnapshottingInt()
         self.hide_pairs = False  # True directly inside an atomic (`@`) rule.
@@ -134,6 +136,7 @@ class ParserState:
         self.rule_stack.snapshot()
         self.atomic_depth.snapshot()
         self._pos_history.append(self.pos)
+        self._tag_history.append(tuple(self.tag_stack))
 
     def ok(self) -> None:
         """Commit to the current state after a successful parse.
@@ -145,6 +148,7 @@ class ParserState:
         self.rule_stack.drop_snapshot()
         self.atomic_depth.drop()
         self._pos_history.pop()
+        self._tag_history.pop()
 
     def restore(self) -> None:
         """Restore the state to the most recent checkpoint.
@@ -156,6 +160,8 @@ class ParserState:
         self.rule_stack.restore()
         self.atomic_depth.restore()
         self.pos = self._pos_history.pop()
+        # A pending tag that was used up by an abandoned attempt is pending again.
+        self.tag_stack[:] = self._tag_history.pop()
 
     def push(self, value: str) -> None:
         """Push a value onto the user stack.
